@@ -18,6 +18,8 @@ COQ = os.path.join(VERIF, 'work', 'coq_' + _TAG) if _TAG else COQ_MAIN
 REPO = os.environ.get('DCMSTACK_REPO', '/repo')
 PY = '/venv/bin/python'
 NCPU = int(os.environ.get('VERIF_JOBS', '16'))
+THOROUGH_BUDGET_S = float(os.environ.get('VERIF_THOROUGH_BUDGET_S', '1200') or 1200)     # per check, split over its parts
+THOROUGH_CHUNK = 1500
 FORBIDDEN = r'\bAdmitted\b|\badmit\b|\bAxiom\b|\bAxioms\b|\bParameter\b|\bParameters\b|\bConjecture\b|Unset\s+Guard|Unset\s+Positivity|Unset\s+Universe|bypass_check|type-in-type|impredicative-set|\bAdmit\s+Obligations\b|\bgive_up\b'
 
 
@@ -571,7 +573,23 @@ def run_check(pid, tier, seed, replay=None):
                 broken.append(('broken-correspondence', part.NAME, 'the part generated no case at all'))
         ran_parts += 1
         tcase = time.time()
-        obs, bad, errs, fails = eval_part(modname, part, cases, work, build_ok)
+        dropped = 0
+        if tier == 'thorough' and replay is None and len(cases) > THOROUGH_CHUNK:
+            # thorough = as many of the generated cases as fit into the time budget of the check (split evenly over its parts):
+            # the stream is processed in order (corpus, systematic blocks, then the seeded random stream) chunk by chunk
+            budget = max(120.0, THOROUGH_BUDGET_S / max(1, len(parts)))
+            obs, bad, errs, fails, done = [], [], [], [], 0
+            while done < len(cases):
+                chunk = cases[done:done + THOROUGH_CHUNK]
+                o, b, e, f = eval_part(modname, part, chunk, work, build_ok)
+                obs += o; bad += [done + i for i in b]; errs += e; fails += f
+                done += len(chunk)
+                if time.time() - tcase > budget:
+                    break
+            dropped = len(cases) - done
+            cases = cases[:done]
+        else:
+            obs, bad, errs, fails = eval_part(modname, part, cases, work, build_ok)
         tall = time.time() - tcase
         pname = part.NAME + (' (correspondence borrowed from %s)' % part.BORROWED_FROM if part.BORROWED_FROM else '')
         for e in errs:
@@ -592,7 +610,7 @@ def run_check(pid, tier, seed, replay=None):
                 k = o.get('err') or ('crash:' + str(o.get('crash')))
                 k = k if isinstance(k, str) else json.dumps(k, default=str)[:60]
                 errkinds[k] = errkinds.get(k, 0) + 1
-        stats.append({'part': part.NAME, 'cases': len(cases), 'kinds': kinds, 'impl_error_kinds': errkinds,
+        stats.append({'part': part.NAME, 'cases': len(cases), 'generated_but_beyond_time_budget': dropped, 'kinds': kinds, 'impl_error_kinds': errkinds,
                       'model_mismatches': len(bad), 'impl_and_model_s': round(tall, 1)})
         for c, o in list(zip(cases, obs))[:1] + list(zip(cases, obs))[-1:]:
             samples.append({'part': part.NAME, 'case': c, 'impl_obs': o})
